@@ -155,7 +155,7 @@ PROPS: dict[str, dict[str, Any]] = {
                         "that a unit is dispatched whole to one worker and run contiguously is validated by the scheduler correspondence and the simulation monitor, not proved"],
     },
     "C08": {
-        "components": [sched(["each"], quick=500, thorough=8000, crash=0.12), system(["each"], 400, 8000)],
+        "components": [sched(["each"], quick=500, thorough=8000, crash=0.12), system(["each"], 400, 8000), e2e("crash-each")],
         "assumptions": ["heterogeneous environments are simulated by distinct --tx specs with their own collections"],
     },
     "C09": {
